@@ -6,6 +6,9 @@ import Varlink.Service
 import VarlinkProofs.Lemmas.Basic
 import Varlink.Extracted.Code
 import Varlink.ExpectedCode
+import Varlink.Client
+import Varlink.JsonWF
+import VarlinkProofs.Props.C03
 namespace Varlink.C04
 open Varlink
 
@@ -221,6 +224,23 @@ theorem loop_continues_after_error_reply (reg : Registry) (beh : Behaviour) (f :
     (connLoop reg beh (f :: fs)).dispatched =
       dispatchEntry (handleCall reg beh c) ++ (connLoop reg beh fs).dispatched := by
   simp [connLoop, hd, hf]
+
+/-! ### from the client's bytes to the dispatcher -/
+
+/-- **A call written by the client's `Send` is delivered exactly where its method string says**: the
+    service decodes the bytes to the same call and handles it by `route`; so the routing theorems above
+    apply to what really travels (method, parameters — JSON-equal — and flags included). -/
+theorem wire_call_routed (reg : Registry) (beh : Behaviour) (m : Bytes) (p : JVal) (more oneway upgrade : Bool)
+    (hm : utf8Ok m = true) (hp : p.wf = true) (hnull : p ≠ .null) (hd : p.depth < maxDepth) :
+    let c : CallIn := { method := m, params := some p, more := more, oneway := oneway, upgrade := upgrade }
+    let t := connLoop reg beh [render (callObj m (some p) more oneway upgrade)]
+    t.frames = (handleCall reg beh c).frames ∧ t.dispatched = dispatchEntry (handleCall reg beh c) ∧
+    (handleCall reg beh c).route = route (reg.ifaces.map (·.1)) m := by
+  have hdec := Varlink.C03.call_roundtrip m p more oneway upgrade hm hp hnull hd
+  refine ⟨?_, ?_, ?_⟩
+  · simp only [connLoop, hdec]; split <;> simp
+  · simp only [connLoop, hdec]; split <;> simp
+  · unfold handleCall; simp only []; split <;> simp_all
 
 /-! ### Non-vacuity: concrete instances of the hypotheses above -/
 
